@@ -6,10 +6,13 @@ EXTENDS SmtpServer, Json
 
 MCConfigs ==
   { [lmtp |-> l, maxRcpt |-> 0, maxBytes |-> 0, tlsAvail |-> FALSE, implicitTLS |-> FALSE,
-     insecureAuth |-> a, authBackend |-> a, lmtpBackend |-> FALSE,
-     binarymime |-> TRUE, dsn |-> FALSE] : l \in BOOLEAN, a \in BOOLEAN } \
-  { c \in [lmtp : {TRUE}, maxRcpt : {0}, maxBytes : {0}, tlsAvail : {FALSE}, implicitTLS : {FALSE},
-            insecureAuth : {TRUE}, authBackend : {TRUE}, lmtpBackend : {FALSE}, binarymime : {TRUE}, dsn : {FALSE}] : TRUE }
+     insecureAuth |-> a, authBackend |-> a, lmtpBackend |-> lb,
+     binarymime |-> TRUE, dsn |-> FALSE] : l \in BOOLEAN, a \in BOOLEAN, lb \in BOOLEAN } \
+  { c \in [lmtp : BOOLEAN, maxRcpt : {0}, maxBytes : {0}, tlsAvail : {FALSE}, implicitTLS : {FALSE},
+            insecureAuth : BOOLEAN, authBackend : BOOLEAN, lmtpBackend : BOOLEAN, binarymime : {TRUE}, dsn : {FALSE}] :
+        (c.lmtp /\ c.authBackend) \/ (~c.lmtp /\ c.lmtpBackend) }
+\* (LMTP: with a plain backend and with a per-recipient one - the silence inside a
+\* final chunk still owes one reply per recipient)
 
 \* ("auth": the silence may also fall into a SASL exchange)
 \* ("stall": the silence falls into a message body or a chunk)
